@@ -20,10 +20,10 @@ ID = "C02"
 
 B1 = "atoms of every kind (IRI, blank, typed literal, language-tagged literal, variable); payload/tag 1 byte over {a, b, B}"
 HARNESSES = [
-    H("c02_term_eq_cmp_pair", "Term::eq(a,b) <=> key(a)==key(b); symmetric; cmp==Equal <=> eq; cmp antisymmetric; cmp == order on keys (blank < IRI < literal < variable)", bound=B1, timeout=1500),
-    H("c02_term_cmp_transitive", "Term::cmp transitive on triples of atoms (<= and Equal)", bound=B1, timeout=1500),
+    H("c02_term_eq_cmp_pair", "Term::eq(a,b) <=> key(a)==key(b); symmetric; cmp==Equal <=> eq; cmp antisymmetric; cmp == order on keys (blank < IRI < literal < variable)", bound=B1, timeout=900),
+    H("c02_term_cmp_transitive", "Term::cmp transitive on triples of atoms (<= and Equal)", bound=B1, timeout=900),
     H("c02_nsterm_eq_override", "NsTerm::eq(prefix+suffix, iri) <=> whole IRIs equal, for every split point; never equal to a non-IRI", bound="3-byte IRIs over {a,b}, all 4 split points", timeout=900),
-    H("c02_term_hash_pair", "equal terms feed identical byte sequences to any Hasher (recording hasher: length + two checksums of the bytes written)", bound=B1, timeout=1500),
+    H("c02_term_hash_pair", "equal terms feed identical byte sequences to any Hasher (recording hasher: length + two checksums of the bytes written)", bound=B1, timeout=900),
     H("c02_langtag_laws", "LanguageTag: == / Ord / Hash all compare ASCII-case-insensitively and agree with each other", bound="2 ASCII letters per tag, all letter values", timeout=1500, stubs=False),
 ]
 
@@ -71,8 +71,8 @@ def run(rep):
     # bounded native stand-in for what CBMC cannot execute (Arc/Rc/Box allocation graphs, String, std DefaultHasher):
     # the laws on a pool of real SimpleTerms incl. nested quoted triples, and every provided conversion / copy path
     native.bounded_stand_in(rep, ID, "c02", [], "c02_laws_and_conversions",
-                            "eq / cmp / hash laws on all pairs and triples of a pool of 18 SimpleTerms (all kinds, tags in several cases, quoted triples nested twice), NsTerm at every split point; every provided conversion or copy (ArcTerm / RcTerm from_term, as_simple, borrow_term, into_term, from_term_ref, try_into_term, Arc / Rc stashes copy_term, triple() / to_triple() / atoms() of the copies, graph names) yields a term of the same kind, equal both ways, cmp Equal, same hash",
-                            "18 + 3 terms, 375 cases", "FromTerm / Term::into_term / as_simple / from_term_ref for SimpleTerm, sophia_term::{ArcTerm, RcTerm, GenericLiteral} (term/src/_macro.rs, _generic.rs), ArcStrStash / RcStrStash::copy_term, graph_name_eq",
+                            "eq / cmp / hash laws on all pairs and triples of a pool of 21 SimpleTerms (all kinds, tags in several cases, quoted triples nested twice incl. two with the same atom sequence but different bracketing; quoted triples ordered component-wise), NsTerm at every split point; every provided conversion or copy (ArcTerm / RcTerm from_term, as_simple, borrow_term, into_term, from_term_ref, try_into_term, Arc / Rc stashes copy_term, triple() / to_triple() / atoms() of the copies, graph names) yields a term of the same kind, equal both ways, cmp Equal, same hash",
+                            "21 + 3 terms, 495 cases", "FromTerm / Term::into_term / as_simple / from_term_ref for SimpleTerm, sophia_term::{ArcTerm, RcTerm, GenericLiteral} (term/src/_macro.rs, _generic.rs), ArcStrStash / RcStrStash::copy_term, graph_name_eq",
                             "./check C02 --replay <this file>   # replay_src/c02")
     rep.not_covered += ["quoted triples (nesting) for cmp / hash beyond the pool of the native stand-in (eq is proved for any nesting)", "conversions through rio Trusted<..>, jsonld, sparql ResultTerm (the sophia_api / sophia_term paths are in the bounded native stand-in only)",
                         "strings longer than one byte, non-ASCII content"]
